@@ -250,6 +250,8 @@ def run_engine(tier, seed, corpus_dir=None):
     nmix, nrank = (2, 3) if tier == "quick" else (6, 10)
     mixjobs = [(1000 + i, seed * 1000003 + 1000 + i, nops, "dflt", i % 2 == 0, i % 3 == 2, "mix" if i < nmix else "rank")
                for i in range(nmix + nrank)]
+    if os.environ.get("VERIF_C15_NO_MIX", "0") not in ("", "0"):   # development knob: the streams as they were before A7
+        mixjobs = []
     # side streams through the internal entry point (flags 0 / OVERWRITE / invalid, no ranking), default strategy and one other
     nireg = 2 if tier == "quick" else 6
     jobs += [(len(plan) + i, seed * 1000003 + len(plan) + i, nops, ("dflt" if i % 2 == 0 else STRATEGIES[1 + (seed + i) % (len(STRATEGIES) - 1)]),
